@@ -2,8 +2,8 @@
 
    A call is (identifier, replied?, outcome).  It exists from the moment it has been given its
    identifier (its request may still be on its way out).  An echo reply carrying identifier i
-   marks every call that has not returned and carries that identifier; a call whose send fails
-   returns that error; a call that ends returns nil iff it is marked, ErrTimeout otherwise.
+   marks every call that has not returned and carries that identifier; a call that is refused
+   (every identifier is waited for) or whose send fails returns that error; a call that ends returns nil iff it is marked, ErrTimeout otherwise.
    "No waiter entry is left behind": the entries needed are exactly the calls that have not
    returned and are not yet marked.
    Nothing here knows about a table, a next-id counter, channels or timers. *)
@@ -17,6 +17,7 @@ Definition sstate := list (nat * call).
 
 Inductive sevent : Set :=
 | SBegin (p : nat) (i : N)
+| SRefuse (p : nat) (i : N)
 | SFail (p : nat)
 | SReply (i : N)
 | SOther
@@ -52,6 +53,11 @@ Definition sstep (st : sstate) (e : sevent) : option sstate :=
       match sget st p with
       | Some _ => None
       | None => Some (st ++ [(p, mkCall i false None)])
+      end
+  | SRefuse p i =>
+      match sget st p with
+      | Some _ => None
+      | None => Some (st ++ [(p, mkCall i false (Some OErr))])
       end
   | SFail p => settle st p (fun _ => OErr)
   | SReply i => Some (map (mark i) st)
